@@ -276,13 +276,34 @@ def run(ctx):
                f"writer stores the checkpoint at {writer_consts} but load_checkpoint_from_file defaults to {r1} and resume_from_file to {r2}: the documented resume route cannot find it")
     # save_checkpoint_to_hdf forwards to dump_state with the given names
     sch = base.methods.get("save_checkpoint_to_hdf")
-    ev2, _ = fold(repo, sch, base, max_depth=1, no_inline={"aspire.utils:dump_state"})
-    ds_ev = [e for e in ev2.events if e.callee == "aspire.utils:dump_state"]
+    ev2, _ = fold(repo, sch, base, max_depth=1, no_inline={"aspire.utils:dump_state", "aspire.utils:dump_pickle_to_hdf"})
+    ds_ev = [e for e in ev2.events if e.callee in ("aspire.utils:dump_state", "aspire.utils:dump_pickle_to_hdf")]
     dsv = dict(ds_ev[0].kwargs).get("dsetname", T.NONE) if ds_ev else T.NONE
     ok = len(ds_ev) == 1 and dict(ds_ev[0].kwargs).get("path") == T.atom("path") and T.select(dsv, ("is", T.atom("dsetname"), T.NONE), False) == T.atom("dsetname") \
-        and ds_ev[0].args[:2] == (T.atom("state"), T.atom("h5_file"))
-    ctx.decide(ok, "C12.route", sch.ident, loc_of(sch), "save_checkpoint_to_hdf forwards state, file, group and dataset name to dump_state",
-               "save_checkpoint_to_hdf does not forward the given group / dataset name to dump_state", disc="forward")
+        and ds_ev[0].args[1:2] == (T.atom("h5_file"),)
+    ctx.decide(ok, "C12.route", sch.ident, loc_of(sch), "save_checkpoint_to_hdf forwards file, group and dataset name to the blob writer",
+               "save_checkpoint_to_hdf does not forward the given file / group / dataset name to the blob writer (dump_state / dump_pickle_to_hdf)", disc="forward")
+    # what is written is this call's state, pickled into a buffer that holds nothing else: either dump_state(state, ...) -- which pickles into a buffer of
+    # its own -- or a buffer created in this very call.  A buffer kept on the object and rewound with seek(0) still holds the tail of the previous (longer)
+    # payload, and the blob writer stores the whole buffer.
+    for fn_, evx_ in [(sch, ev2)] + [(repo.func("aspire.utils:dump_state"), fold(repo, repo.func("aspire.utils:dump_state"), None, max_depth=0)[0])]:
+        for e_ in evx_.events:
+            if e_.callee == "aspire.utils:dump_state" and fn_ is sch:
+                ctx.decide(e_.args[:1] == (T.atom("state"),), "C12.buf", fn_.ident, loc_of(fn_, e_.node), "the state handed to dump_state is this call's state",
+                           f"dump_state is handed {T.show(e_.args[0])[:80] if e_.args else 'nothing'}, not the state of this checkpoint", disc="state")
+            if not e_.callee.endswith("dump_pickle_to_hdf"):
+                continue
+            buf = e_.args[0] if e_.args else None
+            fresh = buf is not None and ((buf[0] == "f" and buf[1].rsplit(".", 1)[-1] == "BytesIO" and not buf[2]) or (buf[0] == "obj"))
+            dumps = [d_ for d_ in evx_.events if d_.callee.endswith("pickle.dump") and len(d_.args) >= 2 and d_.args[1] == buf and d_.seq < e_.seq]
+            trunc = [d_ for d_ in evx_.events if d_.callee == "method:truncate" and d_.args and d_.args[0] == buf and dumps and dumps[-1].seq < d_.seq < e_.seq]
+            state_ok = len(dumps) == 1 and dumps[0].args[0] == T.atom("state")
+            ctx.decide(bool(fresh or trunc) and state_ok, "C12.buf", fn_.ident, loc_of(fn_, e_.node),
+                       "the blob written is one pickle of this call's state in a buffer created for it (or truncated after the dump)",
+                       (f"the buffer handed to the blob writer is {T.show(buf)[:80] if buf else 'missing'}" + (", which outlives the call and is only rewound, not truncated: after a longer checkpoint a shorter "
+                        "one is followed by the tail of the old payload, and the file holds bytes that are not the pickle of any state" if not (fresh or trunc) else "")
+                        + ("" if state_ok else "; it does not hold exactly one pickle of this call's state")), disc="fresh")
+    ctx.count("blob_buffers_checked", 1)
     # the callback built for a file path writes to that file; only "no path" gives the in-memory callback
     dfc = base.methods.get("default_file_checkpoint_callback")
     fp_ = T.atom(dfc.params[1])
@@ -499,7 +520,16 @@ MUTANTS += [
       "resume_from: str | bytes | dict | None = None,\n        **kwargs,\n    ):\n        \"\"\"Sample using BlackJAX SMC.", "C12.probe",
       more=[("checkpoint_every=checkpoint_every,\n            checkpoint_file_path=checkpoint_file_path,\n            resume_from=resume_from,\n        )\n\n    def mutate(self, particles, beta, n_steps=None):\n        \"\"\"Mutate particles using BlackJAX", "resume_from=resume_from,\n            **kwargs,\n        )\n\n    def mutate(self, particles, beta, n_steps=None):\n        \"\"\"Mutate particles using BlackJAX")]),
 ]
+MUTANTS += [
+    M("checkpoints pickled into a buffer kept on the sampler and only rewound", "src/aspire/samplers/base.py", "dump_state(\n            state,\n            h5_file,\n            path=path,\n            dsetname=dsetname,\n            protocol=protocol or pickle.HIGHEST_PROTOCOL,\n        )",
+      "buffer = self._checkpoint_buffer\n        buffer.seek(0)\n        pickle.dump(state, buffer, protocol=protocol or pickle.HIGHEST_PROTOCOL)\n        dump_pickle_to_hdf(buffer, h5_file, path=path, dsetname=dsetname)", "C12.buf",
+      more=[("from ..utils import AspireFile, asarray, dump_state, track_calls", "from io import BytesIO\nfrom ..utils import AspireFile, asarray, dump_pickle_to_hdf, dump_state, track_calls"),
+            ("self._last_checkpoint_bytes: bytes | None = None\n        if preconditioning_transform is None:", "self._last_checkpoint_bytes: bytes | None = None\n        self._checkpoint_buffer = BytesIO()\n        if preconditioning_transform is None:")]),
+]
 NEUTRALS = [
+    M("checkpoint pickled into a buffer created for it, then handed to the blob writer", "src/aspire/samplers/base.py", "dump_state(\n            state,\n            h5_file,\n            path=path,\n            dsetname=dsetname,\n            protocol=protocol or pickle.HIGHEST_PROTOCOL,\n        )",
+      "buffer = BytesIO()\n        pickle.dump(state, buffer, protocol=protocol or pickle.HIGHEST_PROTOCOL)\n        dump_pickle_to_hdf(buffer, h5_file, path=path, dsetname=dsetname)",
+      more=[("from ..utils import AspireFile, asarray, dump_state, track_calls", "from io import BytesIO\nfrom ..utils import AspireFile, asarray, dump_pickle_to_hdf, dump_state, track_calls")]),
     __import__("aspire_sa.rules.smcloop", fromlist=["HELPER_NEUTRAL"]).HELPER_NEUTRAL,
     M("cadence guard written as >= 1", _B, "and checkpoint_every > 0\n", "and checkpoint_every >= 1\n"),
     M("forced checkpoint positional", _B, "maybe_checkpoint(force=True)", "maybe_checkpoint(True)"),
